@@ -62,6 +62,7 @@ type buf struct {
 	// copied-out poison to the buffer freed last before the holder was allocated)
 	allocSeq int
 	freeSeq  int
+	guarded  bool // guard mode: the pages of the freed buffer are inaccessible (not poisoned)
 }
 
 // T is the tracking allocator.
@@ -74,6 +75,7 @@ type T struct {
 	viol       []Violation
 	nextID     int
 	seq        int
+	guard      guardState
 
 	Mallocs, Frees, Appends, Reallocs, ForeignFrees int
 	liveBytes, PeakLive, MaxRequest                 int
@@ -180,7 +182,13 @@ func (t *T) capFor(size int) int {
 
 func (t *T) alloc(size int, where pcs) *[]byte {
 	c := t.capFor(size)
-	arr := make([]byte, c)
+	var arr []byte
+	if t.guard.on && !t.guard.done {
+		arr = t.guardAlloc(c) // fresh or given-back pages: zero
+	}
+	if arr == nil {
+		arr = make([]byte, c)
+	}
 	if t.Policy == Stale {
 		for i := range arr {
 			arr[i] = staleByte
@@ -217,8 +225,12 @@ func (t *T) free(b *buf, where pcs) {
 	b.freePC = where
 	b.hasFree = true
 	full := (*b.h)[:cap(*b.h)]
-	for i := range full {
-		full[i] = poisonByte
+	if t.guard.on && !t.guard.done && t.guardFree(full) {
+		b.guarded = true
+	} else {
+		for i := range full {
+			full[i] = poisonByte
+		}
 	}
 	b.arr = full
 	t.seq++
@@ -262,6 +274,15 @@ func (t *T) grow(h *[]byte, b *buf, more int, where pcs) *[]byte {
 	return nh
 }
 
+// detached returns a copy of the contents of a freed buffer for the caller to keep going with
+// (zeros in guard mode: the freed pages cannot be read).
+func (t *T) detached(b *buf, h *[]byte) []byte {
+	if b.guarded {
+		return make([]byte, len(*h))
+	}
+	return append([]byte(nil), (*h)...)
+}
+
 // Append implements mempool.Allocator.
 func (t *T) Append(h *[]byte, more ...byte) *[]byte {
 	t.mu.Lock()
@@ -276,7 +297,7 @@ func (t *T) Append(h *[]byte, more ...byte) *[]byte {
 	if b.freed {
 		t.report("append-after-free", b, &where, "")
 		// do not touch the poisoned array; give the caller a detached copy to keep going
-		cp := append(append([]byte(nil), (*h)...), more...)
+		cp := append(t.detached(b, h), more...)
 		return &cp
 	}
 	h = t.grow(h, b, len(more), where)
@@ -301,7 +322,7 @@ func (t *T) AppendString(h *[]byte, more string) *[]byte {
 	where := here()
 	if b.freed {
 		t.report("append-after-free", b, &where, "")
-		cp := append(append([]byte(nil), (*h)...), more...)
+		cp := append(t.detached(b, h), more...)
 		return &cp
 	}
 	h = t.grow(h, b, len(more), where)
@@ -391,9 +412,12 @@ func HasPoison(data []byte) int {
 // (free, then copy the tail out of the freed buffer). The caller has established that the poison
 // cannot be legitimate (the poison byte does not occur in its input at that place). The
 // allocator never recycles memory and writes the pattern only in Free, so the source is a freed
-// buffer; it is attributed to the buffer freed last before the holder of data (the live tracked
-// buffer data lies in, if any) was allocated - before now when data lies in no tracked buffer.
-func (t *T) PoisonRead(data []byte, where, detail string) {
+// buffer. When data lies in a live tracked buffer (the holder) the source is attributed to the
+// buffer freed last before the holder was allocated and named in the signature; otherwise (a
+// string the code under test built at some earlier point) the signature names only the
+// observation point and the buffer freed last is given as a hint. It reports false, and records
+// nothing, when no buffer had been poisoned before: the byte then has another origin.
+func (t *T) PoisonRead(data []byte, where, detail string) bool {
 	t.mu.Lock()
 	defer t.mu.Unlock()
 	var holder *buf
@@ -412,27 +436,34 @@ func (t *T) PoisonRead(data []byte, where, detail string) {
 	}
 	var src *buf
 	for i := len(t.freed) - 1; i >= 0; i-- {
-		if b := t.freed[i]; b.freeSeq < before && (src == nil || b.freeSeq > src.freeSeq) {
+		if b := t.freed[i]; !b.guarded && b.freeSeq < before && (src == nil || b.freeSeq > src.freeSeq) {
 			src = b
 		}
 	}
-	sig := "read-after-free alloc=? free=? use=" + where
-	desc := fmt.Sprintf("read-after-free: poison bytes (0x%02X, written over a buffer when it is freed) in %s%s, but no buffer had been freed before", poisonByte, where, detail)
-	if src != nil {
-		allocSite, freeSite := src.allocPC.String(), src.freePC.String()
-		sig = "read-after-free alloc=" + topSite(allocSite) + " free=" + topSite(freeSite) + " use=" + where
-		desc = fmt.Sprintf("read-after-free: poison bytes (0x%02X, written over a buffer when it is freed) in %s%s: the bytes were read out of a buffer after it went back to the pool; freed last before that: buffer #%d (size %d) allocated at [%s], freed at [%s]",
-			poisonByte, where, detail, src.id, src.size, allocSite, freeSite)
+	if src == nil {
+		return false // nothing was poisoned before: the byte has another origin
 	}
+	allocSite, freeSite := src.allocPC.String(), src.freePC.String()
+	sig := "read-after-free use=" + where
+	hint := "freed last before the observation"
+	if holder != nil {
+		// the holder was filled right after it was allocated: the buffer freed last before that is the
+		// source (free, allocate the replacement, copy)
+		sig = "read-after-free alloc=" + topSite(allocSite) + " free=" + topSite(freeSite) + " use=" + where
+		hint = "freed last before the buffer holding the poison was allocated"
+	}
+	desc := fmt.Sprintf("read-after-free: poison bytes (0x%02X, written over a buffer when it is freed) in %s%s: the bytes were read out of a buffer after it went back to the pool; %s: buffer #%d (size %d) allocated at [%s], freed at [%s]",
+		poisonByte, where, detail, hint, src.id, src.size, allocSite, freeSite)
 	if holder != nil {
 		desc += fmt.Sprintf("; the poisoned bytes sit in live buffer #%d (size %d) allocated at [%s]", holder.id, holder.size, holder.allocPC.String())
 	}
 	for _, v := range t.viol {
 		if v.Sig == sig {
-			return
+			return true
 		}
 	}
 	t.viol = append(t.viol, Violation{Kind: "read-after-free", Sig: sig, Desc: desc})
+	return true
 }
 
 // Note records a violation found by a content oracle of the harness under the allocator's
@@ -448,11 +479,30 @@ func (t *T) Note(kind, sig, desc string) {
 	t.viol = append(t.viol, Violation{Kind: kind, Sig: sig, Desc: desc})
 }
 
+// InFreed reports whether data overlaps a buffer that was freed (an address comparison: data is
+// not read). Harness code uses it before looking into memory the code under test still points to.
+func (t *T) InFreed(data []byte) bool {
+	if len(data) == 0 {
+		return false
+	}
+	t.mu.Lock()
+	defer t.mu.Unlock()
+	for _, b := range t.freed {
+		if overlaps(data, b.arr) {
+			return true
+		}
+	}
+	return false
+}
+
 // Sweep verifies that no freed buffer was written to after it was freed.
 func (t *T) Sweep() {
 	t.mu.Lock()
 	defer t.mu.Unlock()
 	for _, b := range t.freed {
+		if b.guarded {
+			continue // inaccessible: a write faults where it happens (Fault)
+		}
 		for i, c := range b.arr {
 			if c != poisonByte {
 				t.report("write-after-free", b, nil, fmt.Sprintf(" (byte %d of the freed array changed to 0x%02x)", i, c))
